@@ -5,7 +5,7 @@ wt=$1; prop=$2; runs=${3:-}
 cd $wt || exit 2
 git diff -- jsonargparse > /tmp/confirm_patch.diff
 echo "== changed lines: $(grep -c '^[+-][^+-]' /tmp/confirm_patch.diff)"
-/tmp/runsuite.sh $wt | head -3
+/verif/tools/runsuite.sh $wt | head -3
 echo "== demo with change:"; (cd $wt && timeout 120 /venv/bin/python demo.py 2>&1 | tail -2; echo "exit ${PIPESTATUS[0]}")
 git stash -q -- jsonargparse
 echo "== demo without change:"; (cd $wt && timeout 120 /venv/bin/python demo.py 2>&1 | tail -2; echo "exit ${PIPESTATUS[0]}")
